@@ -526,8 +526,8 @@ type c13ReqCase struct {
 }
 
 var (
-	c13Schemes    = []string{"ws", "wss", "http", "https"}
-	c13SubLists   = [][]string{nil, {"a"}, {"a", "b"}}
+	c13Schemes  = []string{"ws", "wss", "http", "https"}
+	c13SubLists = [][]string{nil, {"a"}, {"a", "b"}}
 	// "Cookie" twice: one header with two values; "raw:" = the caller wrote the map key by hand, not in canonical form
 	c13ExtraHdrs  = []string{"Connection: close", "Sec-WebSocket-Key: x", "X-Custom: 1", "Origin: http://o", "Cookie: a=1", "Cookie: b=2", "raw:x-tenant: t1"}
 	c13Hosts      = []string{"", "override.example"}
